@@ -100,7 +100,7 @@ Definition C06d_check (c : dcase) : verdict :=
 (* ---------- C10, decorator leg: finalizer discipline ---------- *)
 Definition C10d_check (c : dcase) : verdict :=
   if negb (forallb round_in_domain (d_rounds c)) then SKIP "target-annotation-holds-embedded-json" else
-  match first_dround_fail (fun r => C10d_prop_round (d_cfg c) (d_cache r) (d_events r)) (d_rounds c) 0 with
+  match first_dround_fail (fun r => C10d_prop_round (d_cfg c) (d_cache r) (d_events r) (d_result r)) (d_rounds c) 0 with
   | Some w => PROPFAIL w
   | None => OK
   end.
